@@ -117,7 +117,7 @@ C05Call(g0, g1, e) ==
 
 C05Track(g, e) ==
     LET x == e.node
-        toldNow == e.call = "data" /\ e.res = "Ok" /\ e.acc /\ EvKind(e) = "TurnUndead"
+        toldNow == e.call = "data" /\ e.res = "Ok" /\ EvAcc(e) /\ EvKind(e) = "TurnUndead"
     IN [g EXCEPT !.toldDown = IF toldNow THEN @ \cup {x} ELSE @,
                  !.rejoined = IF HasNote(e, "Rejoin") THEN @ \cup {x} ELSE @,
                  !.activeAfter = IF HasNote(e, "Rejoin") /\ ~HasNote(e, "Active") THEN @ \ {x}
